@@ -2,7 +2,7 @@
     130-237) and of [QueryParamError] (src/errors/query_params.rs:28-170), and of
     [serde_json::to_string] on the values they quote. The text of a float is not modelled: it is
     an oracle [ftext] supplied with each case (produced by serde_json / Rust's Display). *)
-From Deserr Require Import Base Pointer Kinds Value Prog Utf8 Scalars DidYouMean Deser Json.
+From Deserr Require Import Base Pointer Kinds Value Prog Utf8 Scalars DidYouMean Deser Json Monitors.
 Local Open Scope string_scope.
 
 Definition creates_report (c : call) : bool :=
@@ -134,7 +134,7 @@ Section Text.
 
   (** the message of the first report of a trace (the always-Break error types return it) *)
   Definition first_report_msg (qp : bool) (tr : list call) : option string :=
-    match find creates_report tr with
+    match find creates tr with
     | Some (CError _ _ k l) => Some (if qp then qp_msg k l else json_msg k l)
     | Some (CMergeU _ _ u l) =>
       Some (if qp then qp_msg (Unexpected (uerr_text u)) l else json_msg (Unexpected (uerr_text u)) l)
